@@ -236,6 +236,10 @@ def run(prop, tier):
             for kk in ksys:
                 plans.append(("sys-kill", kk, ["strace", "-f", "-o", "/dev/null", "-e",
                                                "inject=write,pwrite64,renameat,renameat2,rename,openat:signal=KILL:when=%d" % kk], None))
+            # an error returned once by one call (a transient fault: the next call succeeds) must be reported, whichever call
+            # it is - every k in both tiers: an error swallowed at one particular write is exactly what sampling misses
+            nerr = len(re.findall(r"^\d+\s+(?:write|pwrite64|rename|renameat|renameat2)\(", sttext, re.M))
+            for kk in range(1, nerr + 2):
                 plans.append(("sys-error", kk, ["strace", "-f", "-o", "/dev/null", "-e",
                                                 "inject=write,pwrite64,renameat,renameat2,rename:error=ENOSPC:when=%d" % kk], None))
             t1 = time.time()
